@@ -144,6 +144,11 @@ def run(ctx):
         total = (1 << 32) + 5
         for aid, prefix in large_set:
             large_jobs.append((aid, total, 0, prefix))
+        # lengths whose BIT count needs more than 29..32 bits: the carry from the low into the high word of the appended length
+        for a in ALGOS:
+            if a[2]:
+                large_jobs.append((a[0], (1 << 26) + 5, 0, 3))
+                large_jobs.append((a[0], (1 << 29) + (1 << 27) + 3, 1 << 26, 0))
     else:
         total = (1 << 32) + 5
         for a in ALGOS:
@@ -151,6 +156,9 @@ def run(ctx):
             large_jobs.append((a[0], total, 0, 3))
             large_jobs.append((a[0], total, 1 << 26, 3))
             large_jobs.append((a[0], total, (1 << 26) + 1, 0))
+            if a[2]:
+                for tot2 in ((1 << 26) + 5, (1 << 27) + (1 << 26) + 1, (1 << 29) + 3, (1 << 31) + (1 << 30) + (1 << 28) + 7, (1 << 32) - 1):
+                    large_jobs.append((a[0], tot2, 0 if tot2 & 1 else (1 << 25) + 3, tot2 & 3))
     pool = cf.ThreadPoolExecutor(max_workers=16)
     lf = []
     for (aid, tot, chunk, prefix) in large_jobs:
@@ -159,8 +167,8 @@ def run(ctx):
     expf = {}
     for (aid, tot, chunk, prefix) in large_jobs:
         hl = ALGOS[aid][2]
-        if hl and (aid, prefix) not in expf:
-            expf[(aid, prefix)] = pool.submit(_large_expected, hl, prefix, tot)
+        if hl and (aid, prefix, tot) not in expf:
+            expf[(aid, prefix, tot)] = pool.submit(_large_expected, hl, prefix, tot)
 
     # ---- small cases ----
     def work(algo):
@@ -229,8 +237,8 @@ def run(ctx):
         by[spec] = hx
         large_res.append({"algo": ALGOS[aid][1], "total": tot, "chunk": chunk, "prefix": prefix, "hex": hx, "wall": o[0]["wall"]})
         name = ALGOS[aid][1]
-        if (aid, prefix) in expf:
-            e = expf[(aid, prefix)].result()
+        if (aid, prefix, tot) in expf:
+            e = expf[(aid, prefix, tot)].result()
             if hx != e:
                 ctx.violation("algo=%s class=large-%s symptom=digest-mismatch" % (name, "single-update" if chunk == 0 else "chunked"),
                               "%d zero bytes after %d prefix bytes, %s: got %s expected %s" % (tot, prefix, "one update" if chunk == 0 else "chunks of %d" % chunk, hx, e), spec)
@@ -250,7 +258,7 @@ def run(ctx):
     cov["rule"] = ("one case = one PCryptoHash object driven through a generated call sequence; every read (get_string / get_digest) is compared with hashlib "
                    "(GOST: independent pure-Python reference, self-tested on 8 published vectors). Classes: single update of every length 0..3*block+8 with random/0x00/0xff "
                    "content; every two-way split (a, L-a) for L <= 2*block+8; random sequences of update(empty, boundary, random)/reset/get_string/get_digest"
-                   "(exact, larger, too-small buffers)/updates after a read; large = 2^32+5 bytes in one update or in 64 MiB chunks. All generated cases are distinct "
+                   "(exact, larger, too-small buffers)/updates after a read; large = 2^32+5 bytes in one update or in 64 MiB chunks, plus 64 MiB .. 4 GiB-1 lengths whose bit count carries into the high word of the appended length. All generated cases are distinct "
                    "call sequences (offsets/lengths differ), counted as generated.")
     cov["stats"] = stats
     cov["gost_reference_selftest"] = "ok" if gost_ok else "FAILED"
